@@ -5,7 +5,7 @@ import struct
 from checks import lib
 
 PROPERTY = "C26"
-LEAN_MODULES = ["KafVerif.Props.C26"]
+LEAN_MODULES = ["KafVerif.Props.C26", "KafVerif.Props.C26Conns"]
 OBLIGATIONS = [
     "KafVerif.C26.total",
     "KafVerif.C26.passthrough",
@@ -29,18 +29,27 @@ OBLIGATIONS = [
     "KafVerif.C26.v2_short_address_rejected",
     "KafVerif.C26.v2_truncated_rejected",
     "KafVerif.C26.err_remainder_suffix",
+    "KafVerif.C26.conn_independent",
+    "KafVerif.C26.conn_delivers_own_remainder",
+    "KafVerif.C26.conn_drained_delivers_rest",
 ]
 BUILDS = {"h": ("root", "./cmd/verif_c26", ["C26"])}
 LEVEL_TEXT = ("Lean theorems over the model of ReadProxyProtocol: never panics, passthrough without a header, remainder is "
               "a suffix of the input, v1 and v2 (LOCAL / TCP4 / TCP6 + TLVs) round trips for every address, port and "
               "trailing stream, boundary theorems (v1 line of exactly 256 bytes accepted, longer rejected after exactly 256 bytes; "
               "v2 length 0xFFFF; unhandled address families give no info with the stream preserved; short/truncated v2 rejected); tied to the code by a differential run through net.Pipe with seeded chunking and an "
-              "independent per-op oracle.")
+              "independent per-op oracle.  Connection lifecycles: in every interleaving of accepts, reads and (repeated) closes of any number "
+              "of connections each wrapped connection reports the parse of its own stream and delivers exactly its own remainder "
+              "(non-interference theorem), tied to the code by multi-connection sessions (sequential with double closes, 4-8 concurrent).")
 TECHNIQUE = "Lean 4 proof over an executable model + differential correspondence + direct monitor"
 ASSUMPTIONS = [
     "bytes.Fields/bytes.ToUpper are modelled for ASCII; non-ASCII v1 lines are exercised by the monitor stream only",
     "v2 addresses are compared as raw bytes: the harness parses net.IP.String() back (dotted text -> 4 bytes)",
     "bufio.Reader (4096 bytes) Peek/ReadByte/ReadFull semantics; the stream ends with EOF (net.Pipe close)",
+    "no state is shared between connections: every ReadProxyProtocol call owns its reader and Close may be called repeatedly "
+    "(the model keeps one record per connection; validated by the multi-connection session stream: sequential lifecycles with "
+    "double closes and 4-8 concurrently open connections, each with its own header and a distinct trailing stream); reads after "
+    "Close are outside the modelled domain",
 ]
 
 SIG = b"\r\n\r\n\x00\r\nQUIT\n"
@@ -360,6 +369,204 @@ def nonascii_cases(rng, n):
     return out
 
 
+
+# ---- connection lifecycles: several connections through ReadProxyProtocol in one process ----
+
+def commas(s):
+    return s.replace(" ", ",")
+
+
+def own_trail(rng, idx):
+    """trailing bytes that identify the connection they belong to (first byte = letter of the connection)"""
+    n = rng.choice([0, 1, 3, 4, 4, 17, 40, 64, 300, 300] + ([5000] if rng.chance(1, 6) else []))
+    if n and rng.chance(1, 6):            # a Kafka-like frame
+        body = bytes([0x41 + idx % 26]) * (n + 3)
+        return struct.pack(">i", len(body)) + body
+    return bytes([0x41 + idx % 26] + [(j * 7 + idx * 31 + 1) & 0xFF for j in range(max(0, n - 1))])[:n]
+
+
+def own_stream(rng, idx):
+    """one connection's byte stream: a header of some kind (addresses depend on idx) + its own trailing bytes"""
+    trail = own_trail(rng, idx)
+    k = rng.below(12)
+    a, b = 1 + idx % 200, 1 + (idx * 13) % 200
+    if k < 3:
+        hdr = b"PROXY TCP4 10.0.%d.%d 10.1.%d.%d %d %d\r\n" % (a, b, b, a, 1000 + idx, 9092)
+    elif k == 3:
+        hdr = b"PROXY TCP6 2001:db8::%x ::%x %d 9093\r\n" % (a, b, 40000 + idx)
+    elif k == 4:
+        hdr = b"PROXY UNKNOWN\r\n"
+    elif k == 5:
+        hdr = SIG + b"\x20\x00\x00\x00"
+    elif k < 8:
+        tlv = rng.choice([b"", b"\x04\x00\x02\x00\x00", rng.bytes(rng.below(20))])
+        pay = bytes([10, 0, a, b, 10, 1, b, a]) + struct.pack(">HH", 1000 + idx, 9092) + tlv
+        hdr = SIG + b"\x21\x11" + struct.pack(">H", len(pay)) + pay
+    elif k == 8:
+        pay = bytes.fromhex("20010db8") + bytes(11) + bytes([a]) + bytes.fromhex("20010db8") + bytes(11) + bytes([b]) + struct.pack(">HH", 50000 + idx, 9092)
+        hdr = SIG + b"\x21\x21" + struct.pack(">H", len(pay)) + pay
+    elif k == 9 and rng.chance(1, 2):
+        hdr = rng.choice([b"PROXY TCP4 1.2.3.4\r\n", SIG + b"\x21\x11\x00\x04abcd", b"PROXY " + b"x" * 300])   # rejected headers
+    else:
+        hdr = b""                          # no PROXY header: plain Kafka connection
+        if not trail:
+            trail = bytes([0x41 + idx % 26])
+    return hdr + trail
+
+
+def gen_sess(rng):
+    n = rng.range(2, 6)
+    streams = [own_stream(rng, i) for i in range(n)]
+    def life(i, force_drain=False, closes=None):
+        ev = ["a%d=%s" % (i, hx(streams[i]))]
+        if not force_drain:
+            for _ in range(rng.below(4)):
+                ev.append("r%d=%d" % (i, rng.choice([0, 1, 2, 4, 5, 16, 100, 4096, 6000])))
+        if force_drain or rng.chance(3, 4):
+            ev.append("d%d" % i)
+        k = closes if closes is not None else rng.choice([0, 1, 1, 2, 2, 3])
+        return ev + ["c%d" % i] * k
+    if rng.chance(1, 2):
+        # free interleaving of the connections' own event sequences
+        lives = [life(i) for i in range(n)]
+        toks = []
+        while any(lives):
+            l = rng.choice([x for x in lives if x])
+            toks.append(l.pop(0))
+    else:
+        # phase 1: some connections live and die one after the other (closed once, twice, three times);
+        # phase 2: the others are all accepted first, then read in turns, then closed
+        g1 = rng.range(1, min(3, n - 1))
+        toks = []
+        for i in range(g1):
+            toks += life(i, force_drain=rng.chance(2, 3), closes=rng.choice([1, 2, 2, 2, 3]))
+        rest = [life(i) for i in range(g1, n)]
+        toks += [l.pop(0) for l in rest]
+        order = list(range(len(rest)))
+        if rng.chance(1, 2):
+            order.reverse()
+        while any(rest):
+            for j in order:
+                if rest[j]:
+                    toks.append(rest[j].pop(0))
+    return "sess %d %s" % (0 if rng.chance(1, 3) else rng.range(1, 1 << 30), " ".join(toks))
+
+
+def gen_par(rng):
+    rounds = []
+    idx = 0
+    for r in range(rng.range(2, 3)):
+        specs = []
+        for _ in range(rng.range(4, 8)):
+            k = rng.choice([2, 2, 1, 3]) if r == 0 else rng.choice([1, 1, 2, 0])
+            specs.append("%d:%s" % (k, hx(own_stream(rng, idx))))
+            idx += 1
+        rounds.append(" ".join(specs))
+    return "par %d %s" % (0 if rng.chance(1, 3) else rng.range(1, 1 << 30), " / ".join(rounds))
+
+
+def expect_session(op):
+    """Expected output tokens of a `sess` / `par` line, from the PROXY reading of EACH CONNECTION'S OWN stream (spec_oracle);
+    None where the spec does not say (bytes left over after a rejected header).  Returns (tokens, streams by connection)."""
+    f = op.split()
+    exp, streams = [], {}
+    if f[0] == "par":
+        for n, t in enumerate(f[2:]):
+            if t == "/":
+                exp.append("/")
+                continue
+            st = bytes.fromhex(t.split(":")[1]) if t.split(":")[1] != "-" else b""
+            streams[n] = st
+            o = spec_oracle(st)
+            exp.append(None if o == "err" else commas(o.split(" rest=")[0]) + ",rest=" + o.split(" rest=")[1])
+        return exp, streams
+    pend = {}
+    for t in f[2:]:
+        kind, body = t[0], t[1:]
+        i = int(body.split("=")[0])
+        if kind == "a":
+            h = body.split("=")[1]
+            st = bytes.fromhex(h) if h != "-" else b""
+            streams[i] = st
+            o = spec_oracle(st)
+            if o == "err":
+                pend[i] = None
+                exp.append("a%d:err" % i)
+            else:
+                r = o.split(" rest=")[1]
+                pend[i] = bytes.fromhex(r) if r != "-" else b""
+                exp.append("a%d:%s" % (i, commas(o.split(" rest=")[0])))
+        elif kind in "rd":
+            if pend.get(i) is None:
+                exp.append(None)
+            else:
+                n = int(body.split("=")[1]) if kind == "r" else len(pend[i])
+                exp.append("r%d:%s" % (i, hx(pend[i][:n])))
+                pend[i] = pend[i][n:]
+        else:
+            exp.append("c%d" % i)
+    return exp, streams
+
+
+def monitor_session(op, out):
+    """(fingerprint, what, token index) or None: every connection must report its own header and deliver its own remainder."""
+    exp, streams = expect_session(op)
+    toks = out.split()
+    if "panic" in out:
+        return "parser-panic", "ReadProxyProtocol / the wrapped connection panicked in a multi-connection session", 0
+    if len(toks) != len(exp):
+        return "session-output-shape", "session output has %d tokens, expected %d" % (len(toks), len(exp)), 0
+    for k, (t, e) in enumerate(zip(toks, exp)):
+        if e is None or t == e:
+            continue
+        if t[0] == "r" or ",rest=" in t:
+            return ("cross-connection-bytes", "with several connections (closed twice / open at the same time) a wrapped connection did not deliver "
+                    "exactly the bytes that follow ITS OWN header: got %s, expected %s" % (t[:80], e[:80]), k)
+        return "session-header-wrong", "in a multi-connection session ReadProxyProtocol reported %s, the connection's own header says %s" % (t[:80], e[:80]), k
+    return None
+
+
+def session_ops(rng, quick):
+    ns, np_ = (200, 40) if quick else (3000, 500)
+    ops = []
+    for i in range(ns + np_):
+        ops.append(gen_par(rng) if i % 6 == 5 and np_ > 0 else gen_sess(rng))
+    return ops
+
+
+def run_sessions(ck, binary, ops, tag):
+    """all session ops through ONE harness process (state a buggy implementation keeps between connections carries over)"""
+    fn = ck.path("ops_%s.txt" % tag)
+    open(fn, "w").write("\n".join(ops) + "\n")
+    rc, out, err = ck.run_bin(binary, stdin_path=fn, timeout=600)
+    impl = out.split("\n")[:-1]
+    if rc != 0 or len(impl) != len(ops):
+        k = min(len(impl), len(ops) - 1)
+        ck.violation("parser-crash", "the harness process died in a multi-connection session: %s" % err[-300:],
+                     {"ops": ops[max(0, k - 40):k + 1], "session": True, "actual": "exit %s" % rc})
+        return None, fn
+    return impl, fn
+
+
+def check_sessions(ck, ops, impl, verbose=False):
+    bad = False
+    for k, (op, o) in enumerate(zip(ops, impl)):
+        f = op.split()
+        nconn = sum(1 for t in f[2:] if t[0] == "a" or ":" in t)
+        dbl = ("par" == f[0] and any(t[0] in "23" for t in f[2:] if ":" in t)) or any(f[2:].count(t) > 1 for t in f[2:] if t[0] == "c")
+        ck.count("%s:conns=%d%s" % (f[0], nconn, ":double-close" if dbl else ""))
+        ck.case(op, nontrivial=nconn >= 2, sample={"op": op[:160], "impl": o[:160]} if k < 2 else None)
+        if verbose:
+            print("  %s\n    -> %s" % (op[:160], o[:300]))
+        m = monitor_session(op, o)
+        if m and not bad:
+            bad = True
+            exp, _ = expect_session(op)
+            ck.violation(m[0], m[1], {"ops": ops[max(0, k - 40):k + 1], "session": True,
+                                      "expected": " ".join(e if e is not None else "?" for e in exp), "actual": o})
+    return bad
+
+
 def run_impl(ck, binary, cases, tag):
     fn = ck.path("ops_%s.txt" % tag)
     open(fn, "w").write("\n".join(c[0] for c in cases) + "\n")
@@ -380,7 +587,9 @@ def run(ck):
     ck.cov["rule"] = ("one op = one connection byte stream (v1 lines with boundary tokens/separators/terminators/lengths around 256, "
                       "v2 headers over all command/family nibbles with TLVs, short and lying lengths, plain streams incl. near-miss "
                       "prefixes; boundary set: token-only v1 lines of 254..258 bytes, LF at index 254..257, ports around 65535 and 2^63/2^64, "
-                      "v2 length field 0 and 0xFFFF (whole / one byte short), every family/transport byte and command nibble), written through net.Pipe in seeded chunk sizes; non-trivial = the stream starts with a PROXY/v2 "
+                      "v2 length field 0 and 0xFFFF (whole / one byte short), every family/transport byte and command nibble), written through net.Pipe in seeded chunk sizes; "
+                      "plus session ops = 2-6 connections driven by one goroutine (interleaved accept / partial reads / read to EOF / Close 0-3 times) and "
+                      "rounds of 4-8 concurrently running connections, each connection with its own header and distinct trailing bytes; non-trivial = the stream starts with a PROXY/v2 "
                       "prefix and is not rejected; distinct = distinct streams")
     bnd = boundary_cases(ck.rng, not ck.quick())
     ck.count("boundary_cases", len(bnd))
@@ -404,6 +613,22 @@ def run(ck):
         ck.cov["disagreements_checked"] += 1
         ck.broke("correspondence model/implementation (ReadProxyProtocol)",
                  "op %r\nimpl : %s\nmodel: %s" % (cases[d][0][:300], impl[d][:300], model[d][:300] if d < len(model) else None))
+    # connection lifecycles: several connections (closed twice, open concurrently) in one process
+    sops = session_ops(ck.rng, ck.quick())
+    ck.log("single-connection streams done; %d multi-connection session ops" % len(sops))
+    simpl, sfn = run_sessions(ck, bins["h"], sops, "sessions")
+    if simpl is not None:
+        ck.count("session_ops", len(sops))
+        check_sessions(ck, sops, simpl)
+        ck.log("sessions through the implementation done")
+        smodel = ck.lean_run("C26", sfn)
+        ck.log("sessions through the model done")
+        ck.cov["traces_validated_against_impl"] += 1
+        d = lib.first_diff(simpl, smodel)
+        if d is not None and not ck.violations:
+            ck.cov["disagreements_checked"] += 1
+            ck.broke("correspondence model/implementation (connection lifecycles through ReadProxyProtocol)",
+                     "op %r\nimpl : %s\nmodel: %s" % (sops[d][:300], simpl[d][:300], smodel[d][:300] if d < len(smodel) else None))
     # outside the modelled domain (non-ASCII whitespace / case mapping): monitor only
     extra = nonascii_cases(ck.rng, 300 if ck.quick() else 3000)
     impl2, _ = run_impl(ck, bins["h"], extra, "nonascii")
@@ -423,6 +648,12 @@ def replay(ck, path):
     if bins is None:
         return
     ops = rep["ops"]
+    if rep.get("session"):
+        impl, _ = run_sessions(ck, bins["h"], ops, "replay")
+        if impl is not None:
+            check_sessions(ck, ops, impl, verbose=True)
+        ck.cov["distinct_nontrivial"] = max(ck.cov["distinct_nontrivial"], 2)
+        return
     cases = []
     for op in ops:
         h = op.split()[-1]
